@@ -13,6 +13,22 @@ IMPORTS = ('From SV Require Import Base.Sym Base.Tensor Gen.PhasePerm Model.SymI
 # the statements of Props/C06c.v (fuse free legs before / after contraction) use a re-numbering of axes
 # (slot_pos / index_of), a_fuse and a_unfuse on pruned fused legs: tied here on the same inputs
 IMPORTS_FC = IMPORTS + 'From SV Require Import Proofs.FuseGroups Proofs.FuseCommuteProofs.\n'
+# run-time tie of the TRANSLATED fused contraction path and front end (Gen/FusedTdotGen.v, tr/gen_fusedtdot.py): own shard
+# and imports, so that the hand-model ties above keep working when the generated file is missing.  Whole record compared:
+# index tables incl. sub-index info, charge, blocks in dict order.
+GEN_IMPORTS = 'From Coq Require Import String.\n' + IMPORTS + 'From SV Require Import Gen.BlockwiseGen Gen.FusedTdotGen.\n'
+GEN_PREAMBLE = '''Definition aeq_strict (G : Symmetry) (R : Ring) (x y : aarray G R) : bool :=
+  list_eqb (index_eqb G) (indices G R x) (indices G R y) && ceqb G (charge G R x) (charge G R y)
+  && blocks_eqb_strict G R (blocks G R x) (blocks G R y).
+Definition td_is_array (G : Symmetry) (R : Ring) (r : option (td_result G R)) (y : aarray G R) : bool :=
+  match r with Some (TdArray c) => aeq_strict G R c y | _ => false end.
+Definition td_is_scalar (G : Symmetry) (R : Ring) (r : option (td_result G R)) (y : tensor R) : bool :=
+  match r with Some (TdScalar t) => tensor_eqb R t y | _ => false end.
+Definition td_is_zero (G : Symmetry) (R : Ring) (r : option (td_result G R)) : bool :=
+  match r with Some TdZero => true | _ => false end.
+Definition td_is_raise (G : Symmetry) (R : Ring) (r : option (td_result G R)) : bool :=
+  match r with None => true | _ => false end.
+'''
 SYMS = ['Z2', 'U1', 'Z2Z2', 'U1U1']
 MODES = {'auto': 'MAuto', 'fused': 'MFused', 'blockwise': 'MBlockwise'}
 
@@ -95,12 +111,44 @@ def gaxes_spec(axa, axb):
     return '(inr (%s, %s))' % (z(axa), z(axb))
 
 
+def gmode(m):
+    return 'None' if m is None else '(Some "%s"%%string)' % m
+
+
+def gen_front_case(sr, gexprs, gmeta, gen_broken, a, b, axes, axes_spec, sym, ring, what, k, modes=('blockwise', 'fused', 'auto', None)):
+    """the generated tensordot_abelian against sr.tensordot on one abelian pair: every mode, preserve_array=True (whole record,
+    block order included) and, for a rank-0 result, the scalar return path"""
+    A = '%s %s' % (sym, ring)
+    dm = sr.get_default_tensordot_mode() if hasattr(sr, 'get_default_tensordot_mode') else 'auto'
+    for m in modes:
+        try:
+            c = sr.tensordot(a, b, axes=axes, mode=m, preserve_array=True)
+        except Exception as e:
+            gen_broken.append('tensordot(mode=%r) raised on a contractible pair (symmetry %s, case %d): %s: %s' % (m, sym, k, type(e).__name__, e))
+            continue
+        head = 'gen_tensordot_abelian %s %s %s %s %s ' % (A, gen.garray(a, sym, ring), gen.garray(b, sym, ring), axes_spec, gmode(m))
+        call = {p: head + p + ' "%s"%%string' % dm for p in ('true', 'false')}
+        gexprs.append('td_is_array %s (%s) %s' % (A, call['true'], gen.garray(c, sym, ring)))
+        gmeta.append(('gen_tensordot_abelian[%s, mode=%r]' % (what, m), sym, k))
+        if c.ndim == 0:
+            v = sr.tensordot(a, b, axes=axes, mode=m)
+            if () in c.blocks:
+                gexprs.append('td_is_scalar %s (%s) %s' % (A, call['false'], gen.gtensor(v, ring)))
+            else:
+                gexprs.append('td_is_zero %s (%s) && %s' % (A, call['false'], 'true' if (isinstance(v, float) and v == 0.0) else 'false'))
+            gmeta.append(('gen_tensordot_abelian[%s, scalar path, mode=%r]' % (what, m), sym, k))
+
+
 def run(ctx):
     import symmray as sr
+    import symmray.abelian_core as ac
     ok = common.standard_proof_phase(ctx)
     rng = ctx.rng
     n_cases = 900 if ctx.thorough else 160
     exprs, meta, found = [], [], []
+    gexprs, gmeta, gen_broken = [], [], []
+    via_fused = getattr(ac, '_tensordot_via_fused', None)
+    drop_mis = getattr(ac, 'drop_misaligned_sectors', None)
     fc_exprs, fc_meta = [], []
     stats = {'prefused_only_free_leg': 0, 'prefused_one_of_two': 0, 'different_sectors': 0, 'fermionic': 0, 'odd': 0, 'vector_or_scalar_side': 0}
     for k in range(n_cases):
@@ -142,6 +190,30 @@ def run(ctx):
             found.append({'op': 'tensordot', **desc, 'raised': '%s: %s' % (type(e).__name__, e), 'replay': rp('strategies')})
             continue
         c0 = res['blockwise']
+        if not ferm:
+            # ---- the TRANSLATED front end and fused path on this pair (negative axes now and then)
+            neg = rng.random() < 0.3
+            axa_in = [x - a.ndim if neg and rng.random() < 0.5 else x for x in axa]
+            axb_in = [x - b.ndim if neg and rng.random() < 0.5 else x for x in axb]
+            gen_front_case(sr, gexprs, gmeta, gen_broken, a, b, (axa_in, axb_in), gaxes_spec(axa_in, axb_in), sym, ring, 'random pair', k)
+            if via_fused is not None:
+                try:
+                    cf = via_fused(a, b, tuple(la), tuple(axa), tuple(axb), tuple(rb))
+                    gexprs.append('aeq_strict %s (gen_tensordot_via_fused %s %s %s %s %s %s %s) %s' % (
+                        A, A, gar(a), gar(b), gen.gnatlist(la), gen.gnatlist(axa), gen.gnatlist(axb), gen.gnatlist(rb), gar(cf)))
+                    gmeta.append(('gen_tensordot_via_fused', sym, k))
+                except Exception as e:
+                    gen_broken.append('_tensordot_via_fused raised on a contractible pair (symmetry %s, case %d): %s: %s' % (sym, k, type(e).__name__, e))
+            if drop_mis is not None:
+                try:
+                    a2, b2 = drop_mis(a, b, tuple(axa), tuple(axb))
+                    for x2, groups in ((a2, (tuple(la), tuple(axa))), (b2, (tuple(axb), tuple(rb)))):
+                        xf = sr.AbelianArray.fuse(x2, *groups, expand_empty=False)
+                        gexprs.append('aeq_strict %s (gen_fuse %s %s [%s; %s]) %s' % (
+                            A, A, gar(x2), gen.gnatlist(groups[0]), gen.gnatlist(groups[1]), gar(xf)))
+                        gmeta.append(('gen_fuse', sym, k))
+                except Exception as e:
+                    gen_broken.append('fuse(.., expand_empty=False) raised on an aligned operand (symmetry %s, case %d): %s: %s' % (sym, k, type(e).__name__, e))
         # ---- (2) a free leg that was fused beforehand stays fused, all strategies agree
         if len(la) >= 2:
             g = tuple(sorted(rng.sample(la, 2)))
@@ -210,6 +282,12 @@ def run(ctx):
                     exprs.append('match %s %s %s %s %s %s with Some c => %s %s c %s | None => false end' % (
                         tdm, A, gar(af), gar(b), gaxes_spec(axa_f, axb), MODES[m], eqb, A, gar(rf[m])))
                     meta.append(('tensordot-prefused-' + m, sym, k))
+                if not ferm:
+                    # the TRANSLATED front end on the operand with a pre-fused free leg (the leg must stay fused), and the other way round
+                    gen_front_case(sr, gexprs, gmeta, gen_broken, af, b, (axa_f, axb), gaxes_spec(axa_f, axb), sym, ring, 'pre-fused free leg', k,
+                                   modes=('blockwise', 'fused', 'auto'))
+                    gen_front_case(sr, gexprs, gmeta, gen_broken, b, af, (axb, axa_f), gaxes_spec(axb, axa_f), sym, ring, 'pre-fused free leg (right operand)', k,
+                                   modes=('fused',))
             except Exception as e:
                 found.append({'op': 'tensordot with a pre-fused free leg', **desc, 'prefused_axes': g, 'raised': '%s: %s' % (type(e).__name__, e),
                               'replay': rp('prefused', prefused_axes=g)})
@@ -273,6 +351,44 @@ def run(ctx):
                                           'axes': list(axes), 'raised': '%s: %s' % (type(e).__name__, e),
                                           'replay': rl.record('single_drop', {'a': aa, 'b': bb}, {'symmetry': sym, 'axes': list(axes)})})
             ctx.nontrivial(('single-drop', sym, ferm, str(cms), str(dus)))
+    # ---- the translated front end: int axes, full contraction (scalar return path, also without any aligned block), refusals
+    for rep in range(40 if ctx.thorough else 12):
+        sym = SYMS[rep % len(SYMS)]
+        nd = rng.randint(1, 3)
+        cm = [gen.rand_chargemap(rng, sym, maxsize=2) for _ in range(nd)]
+        du = [rng.random() < 0.5 for _ in range(nd)]
+        a = gen.rand_array(rng, sr, sym, chargemaps=cm, duals=du, lo=-2, hi=2, keep=rng.choice([1.0, 0.7, 0.5]))
+        kk = rng.randint(0, nd) if rep % 3 else nd
+        perm = list(range(nd - kk, nd)) + list(range(nd - kk))
+        b = a.conj().transpose(tuple(perm))
+        if rep % 4 == 3 and b.blocks:
+            # sparser second operand: possibly nothing aligned
+            b = b.copy()
+            for sct in list(b.blocks)[::2]:
+                del b.blocks[sct]
+        ring = gen.ring_of(a, b)
+        ctx.count(4)
+        gen_front_case(sr, gexprs, gmeta, gen_broken, a, b, kk, '(inl %d%%nat)' % kk, sym, ring, 'int axes %d of rank %d' % (kk, nd), rep)
+        if nd >= 2:
+            # axes of different lengths: ValueError
+            try:
+                sr.tensordot(a, b, axes=([0, 1], [0]), preserve_array=True)
+                gexprs.append('false')
+            except ValueError:
+                gexprs.append('td_is_raise %s %s (gen_tensordot_abelian %s %s %s %s (inr ([0; 1], [0])) (Some "auto"%%string) true "auto"%%string)' % (
+                    sym, ring, sym, ring, gen.garray(a, sym, ring), gen.garray(b, sym, ring)))
+            except Exception:
+                gexprs.append('false')
+            gmeta.append(('gen_tensordot_abelian[axes of different lengths]', sym, rep))
+        try:
+            sr.tensordot(a, b, axes=kk, mode='blockwize', preserve_array=True)
+            gexprs.append('false')
+        except ValueError:
+            gexprs.append('td_is_raise %s %s (gen_tensordot_abelian %s %s %s %s (inl %d%%nat) (Some "blockwize"%%string) true "auto"%%string)' % (
+                sym, ring, sym, ring, gen.garray(a, sym, ring), gen.garray(b, sym, ring), kk))
+        except Exception:
+            gexprs.append('false')
+        gmeta.append(('gen_tensordot_abelian[unknown mode]', sym, rep))
     bad_idx = common.run_cases(ctx, 'fused', IMPORTS, '', exprs, shard=30)
     tie_broken = []
     if bad_idx is None:
@@ -286,6 +402,14 @@ def run(ctx):
     elif bad_fc:
         tie_broken += ['Model %s disagrees with the implementation (symmetry %s, case %d)' % fc_meta[i] for i in bad_fc[:10]]
         ctx.extra['disagreeing_fuse_commute_cases'] = [fc_exprs[i][:3000] for i in bad_fc[:2]]
+    # ---- the translated fused path / front end against the implementation
+    bad_gen = common.run_cases(ctx, 'fusedtdot_gen', GEN_IMPORTS, GEN_PREAMBLE, gexprs, shard=40)
+    tie_broken += gen_broken[:5]
+    if bad_gen is None:
+        tie_broken.append('cases.v (Gen/FusedTdotGen.v, the translated fused contraction path and front end, vs implementation) did not evaluate')
+    elif bad_gen:
+        tie_broken += ['Gen.FusedTdotGen.%s disagrees with the implementation (symmetry %s, case %d)' % gmeta[i] for i in bad_gen[:10]]
+        ctx.extra['disagreeing_gen_cases'] = [gexprs[i][:3000] for i in bad_gen[:2]]
     seen = set()
     for f in found:
         if f['op'] in seen or len(seen) >= 5:
@@ -297,7 +421,7 @@ def run(ctx):
         ctx.violation('proof obligation or tie of C06 no longer checks',
                       {'broken': ctx.broken, 'replay': rl.record('proof_phase')}, found_input=False)
     ctx.extra['case_classes'] = stats
-    ctx.extra['tie'] = {'model_cases': len(exprs), 'fuse_commute_cases': len(fc_exprs)}
+    ctx.extra['tie'] = {'model_cases': len(exprs), 'fuse_commute_cases': len(fc_exprs), 'fusedtdot_gen_cases': len(gexprs)}
     ctx.coverage['rule'] = ('random contractible pairs (rank 2-4, four symmetries, abelian and fermionic with pending signs and odd parity, sparse '
                             'operands whose stored sectors differ) x all strategies; a free leg fused beforehand; fusing the contracted legs after '
                             'align_axes with both fuse strategies; non-trivial = pre-fused leg or pre-fused contracted pair; distinct by structure')
